@@ -45,7 +45,8 @@ def gen_box():
           "def failedSendReleases : Bool := %s" % ("true" if probe_failed_send() else "false")]
     L += ["", "/-- observed on the live `Connection._unbox` (no I/O): when the round trip that fetches the class of a new proxy",
           "(HANDLE_INSPECT) runs a nested dispatch that receives the SAME object, the outer `_unbox` ends up with that very",
-          "proxy (one proxy object, counted twice) instead of creating a second one over it. -/",
+          "proxy AND counts the reception (one proxy object, `____refcount__` 2) instead of creating a second one over it",
+          "or finding it without counting. -/",
           "def oneProxyAcrossInspect : Bool := %s" % ("true" if probe_one_proxy_across_inspect() else "false")]
     L += ["", "end Rpyc.Gen.Box", ""]
     return "\n".join(L)
@@ -84,11 +85,8 @@ def probe_one_proxy_across_inspect():
         raise Inexpressible("_unbox raised %r in the one-proxy probe" % (ex,))
     if not nested or not isinstance(outer, BaseNetref) or not isinstance(nested[0], BaseNetref):
         raise Inexpressible("one-proxy probe: no nested round trip happened / no proxies came out")
-    same = outer is nested[0]
-    if same and object.__getattribute__(outer, "____refcount__") != 2:
-        raise Inexpressible("one-proxy probe: one proxy but it counts %r references" % (
-            object.__getattribute__(outer, "____refcount__"),))
-    return same
+    # the fact: ONE proxy object AND it counts both receptions (the owner registered two references)
+    return outer is nested[0] and object.__getattribute__(outer, "____refcount__") == 2
 
 
 def unsendable_value():
